@@ -654,7 +654,7 @@ package fpgo
 // Stream.Sort sorts a clone: the receiver is not written (frame), the result is fresh and is the ordered, stable
 // permutation of the receiver's items
 //@ func (StreamDef).Sort
-//@   prop C19
+//@   prop C04,C19
 //@   ghost p (Array Int Int)
 //@   ghostset p = Sort_p
 //@   requires streamSelf != nil && fn != nil && SWO(fn, *streamSelf)
@@ -662,12 +662,12 @@ package fpgo
 //@   ensures permutation: forall(i, 0, len(*r0), 0 <= p[i] && p[i] < len(*r0) && (*r0)[i] == (*streamSelf)[p[i]]) && forall2(i, 0, len(*r0), j, 0, len(*r0), i != j ==> p[i] != p[j])
 //@   ensures ordered: ORDERED(fn, *r0)
 //@   ensures stable: STABLE(fn, *r0, p)
-//@ twin (StreamDef).Sort (StreamForInterfaceDef).Sort prop C19
+//@ twin (StreamDef).Sort (StreamForInterfaceDef).Sort prop C04,C19
 
 // SortByIndex: the result is a permutation of the receiver's items (ordered by the caller's index relation, which is opaque
 // here); the receiver keeps its items in their order
 //@ func (StreamDef).SortByIndex
-//@   prop C19
+//@   prop C04,C19
 //@   modifies streamSelf, *streamSelf
 //@   ghost p (Array Int Int)
 //@   ghostset p = _sortperm
@@ -676,7 +676,7 @@ package fpgo
 //@   ensures result: r0 != nil && fresh(r0) && len(*r0) == old(len(*streamSelf))
 //@   ensures permutation: forall(i, 0, len(*r0), 0 <= p[i] && p[i] < len(*r0) && (*r0)[i] == oldheap((*old(streamSelf))[p[i]]))
 //@   ensures receiver-keeps-view: len(*streamSelf) == old(len(*streamSelf)) && forall(i, 0, len(*streamSelf), (*streamSelf)[i] == old((*streamSelf)[i]))
-//@ twin (StreamDef).SortByIndex (StreamForInterfaceDef).SortByIndex prop C19
+//@ twin (StreamDef).SortByIndex (StreamForInterfaceDef).SortByIndex prop C04,C19
 
 // ---------------------------------------------------------------------------------------------------
 // C19 - sort descriptors.  One sign convention for every CompareTo: positive when the receiver sorts before the argument
